@@ -802,9 +802,65 @@ class _Region:
         return None
 
 
+def _unstage_mesh_lists(F):
+    """`P = []` ... `P.append(x)` ... `M = Ctor()` ; `M.vertices += P` (same for edges): the staging list P is the container M.vertices filled later in one go.
+    Written as direct appends to M.vertices (M created where P was), when P has no other use."""
+    fn = F.fn
+    changed = False
+    for st in list(fn.body):
+        if not (isinstance(st, ast.AugAssign) and isinstance(st.op, ast.Add) and isinstance(st.value, ast.Name) and isinstance(st.target, ast.Attribute)
+                and isinstance(st.target.value, ast.Name) and st.target.attr in ("vertices", "edges")):
+            if not (isinstance(st, ast.Expr) and isinstance(st.value, ast.Call) and isinstance(st.value.func, ast.Attribute) and st.value.func.attr == "extend"
+                    and len(st.value.args) == 1 and isinstance(st.value.args[0], ast.Name) and isinstance(st.value.func.value, ast.Attribute)
+                    and isinstance(st.value.func.value.value, ast.Name) and st.value.func.value.attr in ("vertices", "edges")):
+                continue
+            target, P = st.value.func.value, st.value.args[0].id
+        else:
+            target, P = st.target, st.value.id
+        M = target.value.id
+        pdefs = [x for x in fn.body if isinstance(x, ast.Assign) and len(x.targets) == 1 and isinstance(x.targets[0], ast.Name) and x.targets[0].id == P]
+        mdefs = [x for x in fn.body if isinstance(x, (ast.Assign, ast.AnnAssign)) and any(isinstance(t, ast.Name) and t.id == M for t in au.assign_targets(x))]
+        if len(pdefs) != 1 or len(mdefs) != 1 or F.b.count.get(P) != 1 or F.b.count.get(M) != 1:
+            continue
+        pd, md = pdefs[0], mdefs[0]
+        if not ((isinstance(pd.value, ast.List) and not pd.value.elts) or (isinstance(pd.value, ast.Call) and au.call_tail(pd.value) == "list" and not pd.value.args)):
+            continue
+        if not isinstance(md.value, ast.Call) or au.names(md.value) & set(F.b.count):
+            continue            # the constructor must not depend on locals (it is moved up)
+        uses = [n for n in au.walk(fn) if isinstance(n, ast.Name) and n.id == P and isinstance(n.ctx, ast.Load)]
+        ok = True
+        for u in uses:
+            par = au.parent(u)
+            if au.enclosing_stmt(u) is st:
+                continue
+            if not (isinstance(par, ast.Attribute) and par.attr in ("append",) and isinstance(au.parent(par), ast.Call) and au.parent(par).func is par):
+                ok = False
+        # nothing else touches M.<field> between the creation of M and the hand-over
+        others = [n for n in au.walk(fn) if isinstance(n, ast.Attribute) and n.attr == target.attr and isinstance(n.value, ast.Name) and n.value.id == M
+                  and au.enclosing_stmt(n) is not st]
+        if not ok or others:
+            continue
+
+        class T(ast.NodeTransformer):
+            def visit_Name(self, n):
+                if n.id == P and isinstance(n.ctx, ast.Load):
+                    return ast.copy_location(ast.Attribute(value=ast.Name(id=M, ctx=ast.Load()), attr=target.attr, ctx=ast.Load()), n)
+                return n
+        body = [x for x in fn.body if x is not st and x is not pd]
+        if md in body and fn.body.index(md) > fn.body.index(pd):
+            body.remove(md)
+            body.insert(min(fn.body.index(pd), len(body)), md)
+        fn.body = [T().visit(x) for x in body]
+        changed = True
+        ast.fix_missing_locations(fn)
+        F.refresh()
+    return changed
+
+
 def f1_build_path(ctx):
     fn0 = ctx.repo.func(PATHS, "build_path")
     F = _flat(ctx, PATHS, fn0)
+    _unstage_mesh_lists(F)
     fn = F.fn
     site = ctx.site(PATHS, fn0)
     b = F.b
@@ -2339,6 +2395,15 @@ def _dijkstra_loop(ctx, modname, fn0, F, Q, loop, item, need_pred=True):
                     and order.fold_const(c.args[1]) is not None:
                 ok_init = True
                 roles["start"] = c.args[0]
+    seed_mismatch = None
+    if not ok_init and len(pre_push) == 1 and len(pre_lab) == 1:
+        k_lab, k_push = F.resolve(pre_lab[0][1].slice, pre_lab[0][0]), F.resolve(pre_push[0].args[0], pre_push[0])
+        cvl = order.fold_const(pre_lab[0][2])
+        if cvl is not None and cvl != float("inf") and order.fold_const(pre_push[0].args[1]) is not None and not hr.same(k_lab, k_push) \
+                and (isinstance(k_lab, ast.Constant) != isinstance(k_push, ast.Constant) or
+                     (isinstance(k_lab, ast.Constant) and isinstance(k_push, ast.Constant) and k_lab.value != k_push.value)) \
+                and not F.conds(pre_lab[0][0]) and not F.conds(pre_push[0]):
+            seed_mismatch = (k_lab, k_push)
     lbl_def = F.definition(LBL, loop)
     if not ok_init and isinstance(lbl_def, ast.Dict):
         for c in pre_push:
@@ -2361,6 +2426,10 @@ def _dijkstra_loop(ctx, modname, fn0, F, Q, loop, item, need_pred=True):
         or (isinstance(lbl_def, ast.BinOp) and isinstance(lbl_def.op, ast.Mult))
     if ok_init:
         ctx.ok("C09-D4", site, "label[start] = 0 and push(start, 0) before the loop")
+    elif seed_mismatch is not None:
+        ctx.fail("C09-D4", site, "the element queued before the loop is not the element that receives the finite label",
+                 "one of them is a fixed index and the other is not: when they differ the queued start keeps an infinite label, no relaxation "
+                 "`label[nv] > inf + w` fires from it and the elements settled before the labelled one get no predecessor")
     elif pre_push and not pre_lab and found and uniform_ctor and ivals and all(F.is_inf(x) for x in ivals) \
             and not any(isinstance(n_, ast.IfExp) for n_ in ast.walk(lbl_def)):
         ctx.fail("C09-D4", site, "start is not both given a finite label and pushed before the loop",
@@ -2398,7 +2467,27 @@ def _callable_bodies(F):
                 if len(body) == 1 and isinstance(body[0], ast.Return) and body[0].value is not None:
                     out.append((name, st, ps, body[0].value))
                 else:
-                    out.append((name, st, ps, None))
+                    # several statements (a memo table, temporaries): the rules look at every expression the body evaluates, with the temporaries
+                    # that are bound once replaced by their definitions
+                    exprs = []
+                    defs = {}
+                    cnt = {}
+                    for x in au.stmts(body):
+                        for nm, v in sym.split_assign(x):
+                            cnt[nm] = cnt.get(nm, 0) + 1
+                            defs[nm] = v
+                    single = {k: v for k, v in defs.items() if cnt.get(k) == 1 and k not in ps}
+                    simple = all(isinstance(x, (ast.Assign, ast.AnnAssign, ast.Return, ast.If, ast.Expr)) for x in au.stmts(body)) and \
+                        not any(isinstance(n_, (ast.For, ast.While, ast.Try, ast.With)) for x in body for n_ in ast.walk(x))
+                    for x in au.stmts(body):
+                        if isinstance(x, ast.Return) and x.value is not None:
+                            exprs.append(x.value)
+                        elif isinstance(x, (ast.Assign, ast.AnnAssign)) and x.value is not None:
+                            exprs.append(x.value)
+                    if simple and exprs and any(isinstance(x, ast.Return) for x in au.stmts(body)):
+                        out.append((name, st, ps, ast.copy_location(ast.Tuple(elts=[sym.subst(e_, single) for e_ in exprs], ctx=ast.Load()), st)))
+                    else:
+                        out.append((name, st, ps, None))
     return out
 
 
@@ -2419,8 +2508,36 @@ def _stale_source(F, expr, skip=()):
     return None
 
 
+def _w1_zero_weight_is_a_weight(ctx):
+    """a weight supplied by the caller is used as it is, 0 included: `weights.get(e) or <fallback>` / `weights[e] or ..` replaces a weight of 0 (falsy)"""
+    m = ctx.repo.module(PATHS)
+    n = 0
+    for q, fn in sorted(m.funcs.items()):
+        wparams = {p_ for p_ in au.params(fn) if "weight" in p_.lower()}
+        if not wparams:
+            continue
+        for x in au.walk(fn, into_funcs=True):
+            first = None
+            if isinstance(x, ast.BoolOp) and isinstance(x.op, ast.Or) and len(x.values) >= 2:
+                first = x.values[0]
+            elif isinstance(x, ast.IfExp) and hr.same(x.test, x.body):
+                first = x.test
+            if first is None:
+                continue
+            reads = (isinstance(first, ast.Subscript) and isinstance(first.value, ast.Name) and first.value.id in wparams) or \
+                (isinstance(first, ast.Call) and isinstance(first.func, ast.Attribute) and first.func.attr == "get" and isinstance(first.func.value, ast.Name)
+                 and first.func.value.id in wparams)
+            if reads:
+                n += 1
+                ctx.fail("C09-W1", ctx.site(PATHS, fn, x), "a weight supplied by the caller is replaced when it is falsy (`<weight> or <fallback>`)",
+                         "an edge of weight 0 is a legitimate free edge: the search then minimises another weight function than the one it was given")
+    if n == 0:
+        ctx.ok("C09-W1", ctx.site(PATHS, ctx.repo.func(PATHS, "shortest_path")), "supplied weights are not tested for truthiness")
+
+
 def w1_weight_modes(ctx):
     repo = ctx.repo
+    _w1_zero_weight_is_a_weight(ctx)
     # (a) shortest_path: every two-argument weight callable reads both endpoints; the custom mode goes through edge_id(u, v)
     fn0 = repo.func(PATHS, "shortest_path")
     F = _flat(ctx, PATHS, fn0)
